@@ -405,3 +405,60 @@ pub fn adt_ty_strategy(with_dedup: bool) -> BoxedStrategy<Ty> {
     ]
     .boxed()
 }
+
+/// hand-written declarations covering every evolution step kind, optional / transient fields and enums; used where
+/// a *fixed* type list is needed (exhaustive byte enumeration of C05, anchors)
+pub fn fixed_decls() -> Vec<Arc<Decl>> {
+    use Ty::*;
+    let a = |t: Ty| std::sync::Arc::new(t);
+    let f = |n: &str, t: Ty| Field::new(n, t);
+    let mut out: std::vec::Vec<std::sync::Arc<Decl>> = std::vec::Vec::new();
+    // version-0 record
+    out.push(struct_decl("FixP0", &Record { fields: vec![f("x", U8), f("s", Str)], steps: vec![] }));
+    // the Point of tests/derivation.rs: FieldAdded("x", 0), FieldRemoved("z"), a transient field
+    out.push(struct_decl(
+        "FixPoint",
+        &Record {
+            fields: vec![f("x", I32), f("y", I32), Field { name: "_cached_str".into(), ty: Option(a(Str)), transient: Some(Val::None), opt_spelling: 0 }],
+            steps: vec![Step::Added { name: "x".into(), default: Val::Int(0) }, Step::Removed { name: "z".into() }],
+        },
+    ));
+    // made optional, then a field added, then the optional one made transient
+    out.push(struct_decl(
+        "FixOpt",
+        &Record {
+            fields: vec![f("a", U8), f("b", Option(a(U16))), f("c", Str)],
+            steps: vec![Step::MadeOptional { name: "b".into() }, Step::Added { name: "c".into(), default: Val::str("d") }],
+        },
+    ));
+    out.push(struct_decl(
+        "FixOld",
+        &Record { fields: vec![f("a", U8), f("b", U16)], steps: vec![] },
+    ));
+    out.push(struct_decl(
+        "FixTr",
+        &Record {
+            fields: vec![f("a", Dedup), Field { name: "t".into(), ty: U32, transient: Some(Val::Int(7)), opt_spelling: 0 }, f("n", Option(a(Dedup)))],
+            steps: vec![Step::MadeTransient { name: "t".into() }, Step::Added { name: "n".into(), default: Val::None }],
+        },
+    ));
+    let unit = Record { fields: vec![], steps: vec![] };
+    out.push(std::sync::Arc::new(Decl {
+        name: "FixEnum".into(),
+        body: DeclBody::Enum {
+            sorted: false,
+            variants: vec![
+                Variant { name: "A".into(), shape: Shape::Unit, transient: false, record: unit.clone() },
+                Variant { name: "B".into(), shape: Shape::Tuple, transient: false, record: Record { fields: vec![f("field0", Str)], steps: vec![] } },
+                Variant { name: "T".into(), shape: Shape::Unit, transient: true, record: unit.clone() },
+                Variant {
+                    name: "C".into(),
+                    shape: Shape::Struct,
+                    transient: false,
+                    record: Record { fields: vec![f("p", Option(a(U8))), f("z", U64)], steps: vec![Step::Added { name: "z".into(), default: Val::Int(3) }] },
+                },
+            ],
+        },
+    }));
+    out
+}
